@@ -37,11 +37,11 @@ def _one(pid: str):
     return pid, p.returncode, lines, out
 
 
-def run_all(full: bool = False, root: str | None = None) -> dict:
+def run_all(full: bool = False, root: str | None = None, only: list | None = None) -> dict:
     """``root``: analyse this tree instead of /repo (a scratch worktree with a patch applied)."""
     _ROOT[0] = root
     man = json.load(open(os.path.join(VERIF, "MANIFEST.json")))
-    pids = [c["property_id"] for c in man["checks"]]
+    pids = [c["property_id"] for c in man["checks"] if not only or c["property_id"] in only]
     fired = {}
     with ThreadPoolExecutor(max_workers=14) as ex:
         for pid, rc, lines, out in ex.map(_one, pids):
